@@ -177,4 +177,18 @@ Open Scope Z_scope.
         ],
         "examples": [],
     },
+    "C06": {
+        "title": "Origin invariance: translating the axes, the source and the query points by one common vector leaves interpolated values unchanged (exact arithmetic over the generated interpolators); the solver kernels only ever receive source - origin.",
+        "header": HDR_R.format(imports="From FT.proofs Require Import SSR InterpR Interp3R VinterpR Vinterp3R TranslateR."),
+        "theorems": [
+            ("axis_shift", "TranslateR.axis_shift", "a translated axis is an axis"),
+            ("searchsorted_commutes_with_translation", "TranslateR.ssr_shift", "cell location commutes with translation, for any array"),
+            ("interp2d_translate", "TranslateR.interp2d_translate", "model / gradient-grid evaluation: every query point, inside or outside the hull"),
+            ("interp3d_translate", "TranslateR.interp3d_translate", "3D"),
+            ("vinterp2d_translate", "TranslateR.vinterp2d_translate", "traveltime evaluation (source translated too): every case - outside, source cell, zero corner, far faces, generic"),
+            ("vinterp3d_translate", "TranslateR.vinterp3d_translate", "3D"),
+            ("omitting_origin_is_zero_origin", "TranslateR.shift_axis_0", "translating by zero changes nothing"),
+        ],
+        "examples": [],
+    },
 }
